@@ -171,6 +171,28 @@ func (p *Program) contractFor(fn *ssa.Function) *Contract {
 
 // implementers returns the concrete module types whose method set satisfies interface type t.
 // It returns nil for interfaces that are not declared in the module (open world).
+// ensureRtTypes collects the dynamic types: exactly the operand types of MakeInterface instructions in the module
+// (closed world).
+func (p *Program) ensureRtTypes() {
+	if p.rtTypes != nil {
+		return
+	}
+	p.rtTypes = map[string]bool{}
+	for _, fn := range p.allFns {
+		for _, b := range fn.Blocks {
+			for _, ins := range b.Instrs {
+				if mi, ok := ins.(*ssa.MakeInterface); ok {
+					k := typeKey(mi.X.Type())
+					if !p.rtTypes[k] {
+						p.rtTypes[k] = true
+						p.rtList = append(p.rtList, mi.X.Type())
+					}
+				}
+			}
+		}
+	}
+}
+
 func (p *Program) implementers(t types.Type) []types.Type {
 	it, ok := t.Underlying().(*types.Interface)
 	if !ok || it.NumMethods() == 0 {
@@ -185,8 +207,8 @@ func (p *Program) implementers(t types.Type) []types.Type {
 		return r
 	}
 	var out []types.Type
-	if p.rtTypes == nil {
-		// dynamic types: exactly the operand types of MakeInterface instructions in the module (closed world)
+	p.ensureRtTypes()
+	if false {
 		p.rtTypes = map[string]bool{}
 		for _, fn := range p.allFns {
 			for _, b := range fn.Blocks {
